@@ -33,7 +33,15 @@ type xUnit struct {
 	After    []string
 	// writer mode (optional): the receiver is abstracted to the bytes appended to it
 	Writer *xWriter
+	// receiver-fields mode (optional): the fields recv.f of the (pointer) receiver that the code reads are parameters,
+	// those it assigns are returned after the results, in declaration order
+	Recv bool
+	// oracles (optional): expressions (by printed text) replaced by a parameter of the given Gallina type: values the
+	// environment decides (clock, I/O outcome) or that are outside the subset (floating point). At most one use each.
+	Oracles map[string]xOracle
 }
+
+type xOracle struct{ Name, Type string }
 
 // xWriter: calls that append to the receiver's buffer. Keys are the printed callee expressions.
 type xWriter struct {
@@ -64,6 +72,10 @@ type xl struct {
 	retType  string // Coq type of the function's results
 	nres     int
 	resTypes []types.Type
+	recv     types.Object        // receiver variable in receiver-fields mode
+	recvOut  []*types.Var        // receiver fields the code assigns
+	oracleAt map[string]ast.Node // oracle text -> the one node it replaces
+	loops    int
 	tmp      int
 }
 
@@ -220,11 +232,48 @@ func (x *xl) wrap(n ast.Node, t types.Type, term string) string {
 
 // ---------- names ----------
 
+// field: e is recv.f in receiver-fields mode: the field
+func (x *xl) field(e ast.Expr) *types.Var {
+	se, ok := e.(*ast.SelectorExpr)
+	if !ok || x.recv == nil {
+		return nil
+	}
+	if id, ok := se.X.(*ast.Ident); !ok || x.info.ObjectOf(id) != x.recv {
+		return nil
+	}
+	if sel, ok := x.info.Selections[se]; ok && sel.Kind() == types.FieldVal && len(sel.Index()) == 1 {
+		return sel.Obj().(*types.Var)
+	}
+	return nil
+}
+
+// lvalue: the variable (or receiver field) an assignment to e sets; nil for the blank identifier
+func (x *xl) lvalue(e ast.Expr) *types.Var {
+	if f := x.field(e); f != nil {
+		return f
+	}
+	id, ok := e.(*ast.Ident)
+	if !ok {
+		x.fail(e, "assignment to %s: only plain variables (and receiver fields in receiver-fields mode) can be assigned in the subset", x.src(e))
+	}
+	if id.Name == "_" {
+		return nil
+	}
+	v, ok := x.info.ObjectOf(id).(*types.Var)
+	if !ok {
+		x.fail(e, "assignment to %s, which is not a variable", id.Name)
+	}
+	return v
+}
+
 func (x *xl) declare(obj types.Object) string {
 	if n, ok := x.names[obj]; ok {
 		return n
 	}
 	n := obj.Name()
+	if v, ok := obj.(*types.Var); ok && v.IsField() && x.recv != nil {
+		n = x.recv.Name() + "_" + n
+	}
 	for _, r := range xReserved {
 		if n == r {
 			n += "_"
@@ -316,6 +365,19 @@ func bytesLit(s string) string {
 }
 
 func (x *xl) expr(e ast.Expr, g *guards) string {
+	if o, ok := x.unit.Oracles[x.src(e)]; ok {
+		if prev, used := x.oracleAt[o.Name]; (used && prev != e) || x.loops > 0 {
+			x.fail(e, "oracle expression %s is used more than once (or in a loop)", x.src(e))
+		}
+		x.oracleAt[o.Name] = e
+		return o.Name
+	}
+	if f := x.field(e); f != nil {
+		if n, ok := x.names[f]; ok {
+			return n
+		}
+		x.fail(e, "receiver field %s was not found by the pre-scan", x.src(e))
+	}
 	if tv, ok := x.info.Types[e]; ok && tv.Value != nil { // constant expression: value as the compiler sees it
 		switch tv.Value.Kind() {
 		case constant.Int:
@@ -602,14 +664,7 @@ func (x *xl) assigned(ss []ast.Stmt) []*types.Var {
 	lo, hi := ss[0].Pos(), ss[len(ss)-1].End()
 	set := map[*types.Var]bool{}
 	mark := func(e ast.Expr) {
-		id, ok := e.(*ast.Ident)
-		if !ok {
-			x.fail(e, "assignment to %s: only plain variables can be assigned in the subset", x.src(e))
-		}
-		if id.Name == "_" {
-			return
-		}
-		if v, ok := x.info.ObjectOf(id).(*types.Var); ok && !(lo <= v.Pos() && v.Pos() < hi) {
+		if v := x.lvalue(e); v != nil && !(lo <= v.Pos() && v.Pos() < hi) {
 			set[v] = true
 		}
 	}
@@ -688,6 +743,9 @@ func (x *xl) block(ss []ast.Stmt, k string, d int) string {
 }
 
 func (x *xl) ret(vals []string) string {
+	for _, f := range x.recvOut { // the receiver fields the code assigns, as they are at this return
+		vals = append(vals, x.names[f])
+	}
 	v := "tt"
 	if len(vals) == 1 {
 		v = vals[0]
@@ -793,15 +851,16 @@ func (x *xl) stmt(s ast.Stmt, rest func() string, d int) string {
 		}
 		x.fail(s, "expression statement %s is outside the subset", x.src(s))
 	case *ast.IncDecStmt:
-		id, ok := s.X.(*ast.Ident)
-		if !ok {
-			x.fail(s, "%s: only plain variables", x.src(s))
+		lv := x.lvalue(s.X)
+		n, ok := x.names[lv]
+		if lv == nil || !ok {
+			x.fail(s, "%s: not a variable of the translated code", x.src(s))
 		}
-		n, op := x.varName(id), " + 1"
+		op := " + 1"
 		if s.Tok == token.DEC {
 			op = " - 1"
 		}
-		return "let " + n + " := " + x.wrap(s, x.typeOf(id), "("+n+op+")") + " in" + ind(d) + rest()
+		return "let " + n + " := " + x.wrap(s, x.typeOf(s.X), "("+n+op+")") + " in" + ind(d) + rest()
 	case *ast.AssignStmt:
 		return x.assign(s, rest, d)
 	case *ast.IfStmt:
@@ -855,10 +914,7 @@ func (x *xl) assign(s *ast.AssignStmt, rest func() string, d int) string {
 	}
 	var ns, vs []string
 	for i, l := range s.Lhs {
-		id, ok := l.(*ast.Ident)
-		if !ok {
-			x.fail(l, "assignment to %s: only plain variables can be assigned in the subset", x.src(l))
-		}
+		lv := x.lvalue(l)
 		var v string
 		switch s.Tok {
 		case token.ASSIGN, token.DEFINE:
@@ -870,16 +926,18 @@ func (x *xl) assign(s *ast.AssignStmt, rest func() string, d int) string {
 			if !ok {
 				x.fail(s, "assignment operator %s", s.Tok)
 			}
-			be := &ast.BinaryExpr{X: id, OpPos: s.TokPos, Op: op, Y: s.Rhs[i]}
-			x.info.Types[be] = types.TypeAndValue{Type: x.typeOf(id)}
+			be := &ast.BinaryExpr{X: l, OpPos: s.TokPos, Op: op, Y: s.Rhs[i]}
+			x.info.Types[be] = types.TypeAndValue{Type: x.typeOf(l)}
 			v = x.binary(be, &g)
 		}
-		if id.Name == "_" {
+		if lv == nil {
 			ns = append(ns, "_")
 		} else if s.Tok == token.DEFINE {
-			ns = append(ns, x.declare(x.info.ObjectOf(id)))
+			ns = append(ns, x.declare(lv))
+		} else if n, ok := x.names[lv]; ok {
+			ns = append(ns, n)
 		} else {
-			ns = append(ns, x.varName(id))
+			x.fail(l, "%s is not a local variable, parameter or declared global of the translated code", x.src(l))
 		}
 		vs = append(vs, v)
 	}
@@ -983,6 +1041,8 @@ func (x *xl) rangeStmt(s *ast.RangeStmt, rest func() string, d int) string {
 	}
 	vs := x.assigned(s.Body.List)
 	term, _, bind := x.state(s, vs)
+	x.loops++
+	defer func() { x.loops-- }()
 	return guarded(g, "bindc (go_range "+l+" (fun ("+kn+" : Z) ("+vn+" : "+et+") => "+bind+ind(d+1)+
 		x.block(s.Body.List, "Next "+term, d+1)+") "+term+")"+ind(d)+"("+bind+ind(d)+rest()+")")
 }
